@@ -59,7 +59,8 @@ var c16Kinds = map[string]string{
 const c16Patch = "@@\nvar x expression\n@@\n-foo(x)\n+barbarbar(x, x)\n"
 
 func c16Scenarios(tier string) [][]string {
-	s := [][]string{{"m"}, {"m", "m2"}, {"m", "n", "m2"}, {"u", "m"}, {"m", "u", "m2"}}
+	// a kind ending in "+hl" has a second hard link outside the processed tree
+	s := [][]string{{"m"}, {"m", "m2"}, {"m", "n", "m2"}, {"u", "m"}, {"m", "u", "m2"}, {"m+hl"}, {"m", "m2+hl"}}
 	if tier == "thorough" {
 		s = append(s, []string{"m2"}, []string{"n", "m"}, []string{"m", "m2", "m"}, []string{"m", "m", "u"}, []string{"u", "u", "m"})
 	}
@@ -85,7 +86,7 @@ func c16Gen(tier string, emit func(any)) {
 			}
 		}
 	}
-	for _, l := range []string{"unparseable-source", "rewrite-error", "unparseable-result", "missing-path", "missing-patch", "patch-is-directory", "malformed-patch", "missing-patches-file", "patches-file-names-missing-patch"} {
+	for _, l := range []string{"unparseable-source", "rewrite-error", "unparseable-result", "missing-path", "missing-path-abs", "missing-path-abs-slash", "missing-path-abs-dots", "missing-path-abs-dotdot", "missing-dir-rel-dots", "missing-patch", "patch-is-directory", "malformed-patch", "missing-patches-file", "patches-file-names-missing-patch"} {
 		for n := 1; n <= 3; n++ {
 			for pos := 0; pos < n; pos++ {
 				emit(&C16Case{Family: "logical", Logical: l, Kinds: make([]string, n), Position: pos})
@@ -155,17 +156,28 @@ func c16Setup(env *core.Env, kinds []string) (root string, names []string, orig 
 	root = filepath.Join(env.Scratch, "c16")
 	tree := map[string]string{"p.patch": c16Patch}
 	orig = map[string]string{}
+	var linked []string
 	for i, k := range kinds {
-		n := fmt.Sprintf("f%d%s.go", i, k)
+		base := strings.TrimSuffix(k, "+hl")
+		n := fmt.Sprintf("f%d%s.go", i, base)
 		names = append(names, n)
-		orig[n] = c16Kinds[k]
-		tree["t/"+n] = c16Kinds[k]
+		orig[n] = c16Kinds[base]
+		tree["t/"+n] = c16Kinds[base]
+		if base != k {
+			linked = append(linked, n)
+		}
 	}
 	if err := drive.FreshDir(root); err != nil {
 		panic(err)
 	}
 	if err := drive.WriteTree(root, tree); err != nil {
 		panic(err)
+	}
+	os.MkdirAll(filepath.Join(root, "links"), 0o755)
+	for _, n := range linked {
+		if err := os.Link(filepath.Join(root, "t", n), filepath.Join(root, "links", n+".lnk")); err != nil {
+			panic(err)
+		}
 	}
 	return
 }
@@ -175,6 +187,13 @@ func c16Reset(root string, orig map[string]string) {
 	os.MkdirAll(filepath.Join(root, "t"), 0o755)
 	for n, s := range orig {
 		os.WriteFile(filepath.Join(root, "t", n), []byte(s), 0o644)
+	}
+	// restore the second hard links
+	ents, _ := os.ReadDir(filepath.Join(root, "links"))
+	for _, e := range ents {
+		l := filepath.Join(root, "links", e.Name())
+		os.Remove(l)
+		os.Link(filepath.Join(root, "t", strings.TrimSuffix(e.Name(), ".lnk")), l)
 	}
 }
 
@@ -308,6 +327,11 @@ func c16Run(env *core.Env, ci any) core.Outcome {
 	final := ref.files
 	refActions := scratchActions(ref.log, root, false)
 	hasUnparsable := contains(c.Kinds, "u")
+	for _, k := range c.Kinds {
+		if strings.HasSuffix(k, "+hl") && c16Kinds[strings.TrimSuffix(k, "+hl")] == "" {
+			panic("harness: unknown kind " + k)
+		}
+	}
 	if (ref.exit != 0) != hasUnparsable {
 		panic(fmt.Sprintf("harness: unexpected reference exit %d: %s", ref.exit, ref.stderr))
 	}
@@ -529,8 +553,15 @@ func c16Logical(env *core.Env, c *C16Case) core.Outcome {
 	args = []string{"-p", filepath.Join(root, "p.patch")}
 	fileArgs := append([]string{}, names...)
 	switch c.Logical {
-	case "missing-path":
-		miss := "missing_dir/nothere.go"
+	case "missing-path", "missing-path-abs", "missing-path-abs-slash", "missing-path-abs-dots", "missing-path-abs-dotdot", "missing-dir-rel-dots":
+		miss := map[string]string{
+			"missing-path":            "missing_dir/nothere.go",
+			"missing-path-abs":        filepath.Join(root, "t", "nothere.go"),
+			"missing-path-abs-slash":  filepath.Join(root, "t", "nothere.go") + "/",
+			"missing-path-abs-dots":   filepath.Join(root, "t", "nothere.go") + "/...",
+			"missing-path-abs-dotdot": filepath.Join(root, "t") + "/sub/../nothere.go",
+			"missing-dir-rel-dots":    "./nothere.go/...",
+		}[c.Logical]
 		fileArgs = append(append(append([]string{}, fileArgs[:c.Position]...), miss), fileArgs[c.Position:]...)
 		wantInStderr = []string{"nothere.go", "no such file or directory"}
 	case "missing-patch":
